@@ -203,6 +203,7 @@ func checkC20(c *Ctx) {
 	c20PackageState(c)
 	c20FanoutWrite(c)
 	c20ClosureState(c)
+	c20SharedPointeeWrite(c)
 	// a message that keeps the caller's map is marshalled later by another goroutine while the caller may reuse the map
 	c05ParamsCopied(c, "R-params-copied")
 }
